@@ -10,6 +10,7 @@ import (
 	"io"
 	"os"
 	"os/exec"
+	"sort"
 	"strconv"
 	"strings"
 	"time"
@@ -29,6 +30,64 @@ type Solver struct {
 	bin    string
 	log    *os.File // optional SMT-LIB transcript of leaf obligations
 	tmo    int      // per-query timeout ms
+	xcap   int      // cross-solver sample: at most this many queries are kept
+	xlog   []xquery
+	xseen  int
+}
+
+// xquery: a self-contained copy of a query and z3's verdict, for the cross-solver comparison
+type xquery struct {
+	text string
+	res  satResult
+}
+
+func collectVars(t *Term, seen map[string]int) {
+	if t.vid == -1 {
+		return
+	}
+	if t.Op == "var" {
+		seen[t.Name] = t.W
+		return
+	}
+	for _, a := range t.Args {
+		collectVars(a, seen)
+	}
+}
+
+func (s *Solver) record(pc []*Term, extra *Term, r satResult) {
+	if s.xcap == 0 || r == resUnknown {
+		return
+	}
+	s.xseen++
+	// keep the first xcap/2 queries and then every 50th one
+	if len(s.xlog) >= s.xcap || (len(s.xlog) >= s.xcap/2 && s.xseen%50 != 0) {
+		return
+	}
+	vars := map[string]int{}
+	for _, t := range pc {
+		collectVars(t, vars)
+	}
+	if extra != nil {
+		collectVars(extra, vars)
+	}
+	names := make([]string, 0, len(vars))
+	for n := range vars {
+		names = append(names, n)
+	}
+	sort.Strings(names)
+	var sb strings.Builder
+	sb.WriteString("(push 1)\n")
+	for _, n := range names {
+		fmt.Fprintf(&sb, "(declare-const %s (_ BitVec %d))\n", n, vars[n])
+	}
+	for _, t := range pc {
+		sb.WriteString("(assert " + t.s + ")\n")
+	}
+	if extra != nil {
+		sb.WriteString("(assert " + extra.s + ")\n")
+	}
+	sb.WriteString("(check-sat)\n(pop 1)\n")
+	s.xlog = append(s.xlog, xquery{sb.String(), r})
 }
 
 func newSolver(bin string, timeoutMs int) *Solver {
@@ -183,9 +242,11 @@ func (s *Solver) check(pc []*Term, extra *Term) satResult {
 	switch line {
 	case "sat":
 		s.nSat++
+		s.record(pc, extra, resSat)
 		return resSat
 	case "unsat":
 		s.nUnsat++
+		s.record(pc, extra, resUnsat)
 		return resUnsat
 	}
 	s.nUnk++
@@ -239,6 +300,7 @@ func (s *Solver) model(pc []*Term, extra *Term, vars []*Term) (map[string]uint64
 	default:
 		s.nUnk++
 	}
+	s.record(pc, extra, r)
 	s.in.WriteString("(pop 1)\n")
 	s.in.Flush()
 	s.dur += time.Since(t0)
@@ -292,4 +354,54 @@ func parseModel(txt string, out map[string]uint64) {
 			i += 3
 		}
 	}
+}
+
+// crossCheck re-decides the recorded queries with another solver binary and
+// returns (compared, disagreements, inconclusive).
+func crossCheck(bin string, qs []xquery) (int, int, int, error) {
+	if len(qs) == 0 {
+		return 0, 0, 0, nil
+	}
+	f, err := os.CreateTemp(workDir(), "cross-*.smt2")
+	if err != nil {
+		return 0, 0, 0, err
+	}
+	defer os.Remove(f.Name())
+	w := bufio.NewWriter(f)
+	w.WriteString("(set-logic QF_BV)\n")
+	for _, q := range qs {
+		w.WriteString(q.text)
+	}
+	w.Flush()
+	f.Close()
+	var cmd *exec.Cmd
+	if strings.Contains(bin, "cvc5") {
+		cmd = exec.Command(bin, "--incremental", "--lang=smt2", "--tlimit-per=20000", f.Name())
+	} else {
+		cmd = exec.Command(bin, "-t:20000", f.Name())
+	}
+	out, err := cmd.CombinedOutput()
+	var verdicts []string
+	for _, l := range strings.Split(string(out), "\n") {
+		l = strings.TrimSpace(l)
+		if l == "sat" || l == "unsat" || l == "unknown" || strings.HasPrefix(l, "(error") {
+			verdicts = append(verdicts, l)
+		}
+	}
+	if len(verdicts) != len(qs) {
+		return 0, 0, 0, fmt.Errorf("%s answered %d of %d queries (%v)", bin, len(verdicts), len(qs), err)
+	}
+	compared, bad, inc := 0, 0, 0
+	for i, v := range verdicts {
+		switch {
+		case v == "sat" || v == "unsat":
+			compared++
+			if (v == "sat") != (qs[i].res == resSat) {
+				bad++
+			}
+		default:
+			inc++
+		}
+	}
+	return compared, bad, inc, nil
 }
